@@ -23,6 +23,9 @@ META = dict(
 def classify(r):
     raw = r["raw"][r["index"]] if 0 <= r["index"] < len(r["raw"]) else {}
     who = raw.get("name", "?")
+    if raw.get("ev") == "WorkerDied":
+        prev = [e for e in r["raw"][:r["index"]] if e.get("name")]
+        who = prev[-1]["name"] if prev else "?"
     commits = [e for e in r["raw"][:r["index"]] if e.get("ev") == "CommitEnd" and e.get("ok")]
     last = commits[-1] if commits else None
     lastw = ",".join(sorted({e.get("name", "?") for e in commits}))
@@ -34,7 +37,8 @@ def classify(r):
         import re as _re
         m = _re.search(r"sop/(\w+)\.\(\*?(\w+)[^)]*\)\.(\w+)", note)
         site = "%s.%s.%s" % m.groups() if m else ("hang" if "hung" in note else "?")
-        return ("%s|process-panic|%s" % (mode, site), "a process died while executing a transaction: %s" % note[:300])
+        return ("%s|process-panic|%s|last-commit-by=%s" % (mode, site, rel),
+                "a process died while executing a transaction (successful commits so far by %s): %s" % (lastw, note[:300]))
     if ev in ("Observe", "Op") and (ev == "Observe" or raw.get("op") in txnlib.READ_OPS):
         sym = "stale-read"
     elif ev == "CommitEnd" and not raw.get("ok"):
